@@ -305,7 +305,19 @@ class Stmts:
             for case in s.cases:
                 cond = self.match_pattern(case.pattern, r.val, cur)
                 if case.guard is not None:
-                    raise Unsupported("match guard")
+                    # `case P if G`: the guard is evaluated (side-effect free, single outcome) with the captures of P bound
+                    gs = self.eval(case.guard, cur)
+                    if len(gs) != 1 or gs[0].kind != "val" or gs[0].st is not cur:
+                        self.pure_mode = True
+                        try:
+                            gs = self.eval(case.guard, cur)
+                        finally:
+                            self.pure_mode = False
+                        if len(gs) != 1 or gs[0].kind != "val":
+                            raise Unsupported("match guard with several outcomes")
+                    g = self.truthy(gs[0].val, cur)
+                    c0 = z3.BoolVal(cond) if isinstance(cond, bool) else cond
+                    cond = z3.simplify(z3.And(c0, z3.BoolVal(g) if isinstance(g, bool) else g))
                 nxt = None
                 for taken, bs in self.split(cur, cond):
                     if taken:
